@@ -133,6 +133,22 @@ class C15:
             ctx.bad("R15.2", file, "load_audio", f"{len(seeks)} seek / {len(reads)} read calls",
                     "load_audio must seek once to the offset and read once", s.node.lineno)
             return
+        # every path returns the frames that were read (no shortcut that fabricates data)
+        rd = reads[0].term
+        okret = bool(s.returns)
+        for r in s.returns:
+            if not (r.term[0] == "tuple" and len(r.term[1]) == 2 and r.term[1][0] == rd):
+                okret = False
+                ctx.bad("R15.2", file, "load_audio", f"return {show(r.term)[:70]} if {show(r.live)[:60]}",
+                        f"load_audio returns `{show(r.term)[:80]}` under `{show(r.live)[:80]}` instead of the frames read from the file at the "
+                        f"offset: the clip's content is not the file's frames on that path (zero fill past the end of file is soundfile's job "
+                        f"via fill_value)", r.lineno)
+        if okret:
+            ctx.ok("R15.2", f"{file}:{reads[0].lineno} load_audio", "every path returns the frames read at the offset")
+        if any(c[0] != "inloop" and "caught" not in str(c[0]) for c in conjuncts(reads[0].live) if c[0] not in ("inloop",)) and \
+                [c for c in conjuncts(reads[0].live) if c[0] == "cmp"]:
+            ctx.bad("R15.2", file, "load_audio", f"read only if {show(reads[0].live)[:80]}",
+                    "the file is read only under a condition on offset/samples", reads[0].lineno)
         kw = dict(reads[0].term[3])
         frames = kw.get("frames", reads[0].term[2][0] if reads[0].term[2] else None)
         want_frames = ("ite", ("cmp", "is", samples, NONE), ("const", -1), samples)
@@ -279,7 +295,7 @@ class C15:
 
 def run(ctx: Ctx):
     ctx.rule("R15.1", "clip offset/length by floor, file read at that offset, axis from the snapped offset", 5)
-    ctx.rule("R15.2", "seek before read; frames=samples; 2-D; zero fill", 4)
+    ctx.rule("R15.2", "seek before read; frames=samples; 2-D; zero fill; every path returns the read frames", 5)
     ctx.rule("R15.3", "advertised steps computed from the generating quantities", 8)
     ctx.rule("R15.4", "spectrogram time origin is the source's first time", 1)
     c = C15(ctx)
@@ -288,4 +304,9 @@ def run(ctx: Ctx):
     c.check_spectrogram()
     c.check_resample()
     c.check_time_dim_ctor()
+    # the clip / recording axes are built by create_time_range -> create_range_dim (anchored file arrays/dimensions.py)
+    from .c16 import C16
+    with ctx.delegated("C16/"):
+        ctx.rule("R16.1", "recorded step == generating step; create_time_range forwards start/stop/step (step mode)", 5)
+        C16(ctx).check_range_dim(wrappers=("create_time_range",), size_mode=False)
     return EXPLANATION, ASSUMPTIONS
